@@ -101,6 +101,17 @@ def gain_at(m, dirs):
     return np.array(out)
 
 
+def field_at(m, dirs):
+    """(|E_theta|, |E_phi|, |E|) times distance for the source voltages as given"""
+    out = []
+    A = build.mm.Angle
+    for th, ph in dirs:
+        m.compute_far_field(A(th, 0, 1), A(ph, 0, 1))
+        a, b = abs(complex(np.ravel(m.far_field.e_theta)[0])), abs(complex(np.ravel(m.far_field.e_phi)[0]))
+        out.append([a, b, math.hypot(a, b)])
+    return np.array(out)
+
+
 def unit(th, ph):
     t, p = math.radians(th), math.radians(ph)
     return np.array([math.sin(t) * math.cos(p), math.sin(t) * math.sin(p), math.cos(t)])
@@ -203,7 +214,7 @@ def check(case):
         fails.append(('invariance:currents:' + what, 'currents change by %.3g (tol %.2g, cond %.3g) under %s scale %s'
                       % (err, tol1, c0, [(x['kind'], x['v']) for x in motion], scale)))
     for a, b in zip(m0.sources, m1.sources):
-        if abs(a.impedance - b.impedance) > tol1 * abs(a.impedance):
+        if abs(a.impedance - b.impedance) > tol1 * common.port_amp(m0, a) * abs(a.impedance):
             fails.append(('invariance:impedance:' + what, 'feed impedance %r becomes %r' % (a.impedance, b.impedance)))
             break
     if fails:
@@ -239,8 +250,15 @@ def check(case):
         msk = g0[:, 2] > g0[:, 2].max() - 40
         d = np.abs(g0 - g1)[msk][:, cols]
         d = d[g0[msk][:, cols] > -60]
-        if d.size and d.max() > 0.01 * tol1 / 5e-4:
+        if d.size and d.max() > common.gain_tol_db((m0, m1), tol1):
             fails.append(('invariance:pattern:' + what, 'gain at rigidly moved directions differs by %.3g dB' % d.max()))
+        # the radiated field itself (not normalised with the net power, which is ill-conditioned for reactive feeds):
+        # |E| r at the rigidly moved directions, relative to the largest value
+        e0, e1 = field_at(m0, dirs0), field_at(m1, dirs1)
+        cols_e = [0, 1, 2] if len(cols) == 3 else [2]
+        de = np.abs(e0 - e1)[:, cols_e].max() / max(e0[:, 2].max(), 1e-300)
+        if de > 2 * tol1:
+            fails.append(('invariance:field:' + what, '|E| r at rigidly moved directions differs by %.3g of the largest value (tol %.2g)' % (de, 2 * tol1)))
     # ---- (b) options vs coordinates (wires only)
     if all(o['type'] == 'wire' for o in case['objs']):
         opt = copy.deepcopy(mv)
@@ -288,7 +306,7 @@ def check(case):
             t2 = common.gate(max(common.cond(ma), common.cond(mb)))
             if t2 is not None:
                 for a, b in zip(ma.sources, mb.sources):
-                    if abs(a.impedance - b.impedance) > t2 * abs(a.impedance):
+                    if abs(a.impedance - b.impedance) > t2 * common.port_amp(ma, a) * abs(a.impedance):
                         fails.append(('options-vs-coordinates:impedance', '%r vs %r' % (a.impedance, b.impedance)))
                         break
     return Result(fails=fails, nontrivial=nt, labels=sorted(set(labels)))
